@@ -618,11 +618,15 @@ def _font_programs(font):
             ops = [op for op in ops if op[0] != "addComponent"]
         out.append(dict(name=name, ops=ops, width=w, cs=cs, seac=seac))
     gs = [_subr_prog(s) for s in font[tag].cff.GlobalSubrs]
+    lcache = {}
     for d in out:
         cs = d["cs"]
         cs.decompile()
         d["prog"] = list(cs.program)
-        d["lsubrs"] = [_subr_prog(s) for s in getattr(cs.private, "Subrs", [])]
+        k = id(cs.private)
+        if k not in lcache:
+            lcache[k] = [_subr_prog(s) for s in getattr(cs.private, "Subrs", [])]
+        d["lsubrs"] = lcache[k]
         d["private"] = cs.private
     return out, gs, tag
 
@@ -698,7 +702,10 @@ def _hb_compare(acc, clause, data, ref_ops, tols, case, where, hmtx=None):
         if want is None:
             continue
         ops = hbf.draw(gid)
-        ok, d = fill_same(want, ops, tols[gid] if tols else 1e-6)
+        tol = tols[gid] if tols else 1e-6
+        ok, d = exact_same(want, ops, tol)  # HarfBuzz keeps zero-length segments and drops lone movetos
+        if not ok:
+            ok, d = fill_same(want, ops, tol)
         if not ok:
             acc.fail(clause, "harfbuzz-outline", "%s glyph %d: %s" % (where, gid, d), case, where)
         if hmtx is not None and hbf.h_advance(gid) != hmtx[gid]:
@@ -1150,6 +1157,8 @@ _MAXSTACKS = [None, None, 9, 14, 24]
 
 
 def _body_font(case, acc):
+    for why in case.get("gen_excluded", ()):
+        acc.exclude("generator:" + why)
     res = check_font_case(acc, case)
     for i, (labels, changed, fp) in enumerate(res):
         acc.case(fp, nontrivial=changed, labels=sorted(labels), sample=dict(prog=case["flat"][i], sub=case["sub"][i]) if changed and len(case["flat"][i]) < 60 else None)
